@@ -1,0 +1,21 @@
+# Copyright (c) Fairlearn contributors.
+# Licensed under the MIT License.
+
+"""Optional event recording for external verification harnesses.
+
+Disabled unless the environment variable ``FAIRLEARN_VERIF_TRACE`` is set
+when this module is imported. When disabled every call site reduces to a
+single attribute test.
+"""
+
+import os
+
+_ON = bool(os.environ.get("FAIRLEARN_VERIF_TRACE"))
+events = []
+
+
+def emit(kind, **fields):
+    """Append one event (a plain dict) to the in-process event list."""
+    if _ON:
+        fields["ev"] = kind
+        events.append(fields)
